@@ -13,6 +13,9 @@ GRAPHS = {
     "rec": {"A": {"pkg": "ra.v1", "children": ["A", "B"]}, "B": {"pkg": "ra.v1", "children": ["A"]}},
     "xp": {"A": {"pkg": "xa.v1", "children": ["D"]}, "D": {"pkg": "xb.v1", "children": []},
            "C": {"pkg": "xc.v1", "children": []}},
+    # L is flattened into itself: its schema builds and is then rejected and rolled back; H holds an L; G is unrelated
+    "inv": {"L": {"pkg": "ia.v1", "children": ["L"], "selfflat": True}, "H": {"pkg": "ia.v1", "children": ["L"]},
+            "G": {"pkg": "ia.v1", "children": []}},
 }
 # larger graph for stress only (not a model constant)
 BIG = {
@@ -67,6 +70,11 @@ def run(chk):
     if r.violated != "SameAsAlone":
         chk.machinery_errors.append("unguarded model does not violate SameAsAlone: the model is vacuous")
     chk.extra_cov["unguarded_model_violates"] = r.violated
+    # validating a build after giving up the lock (Guard = "early") is wrong as well
+    r = chk.tlc("SchemaCacheMC.tla", "SchemaCache_inv2_early.cfg", "early", timeout=600)
+    if r.violated != "SameAsAlone":
+        chk.machinery_errors.append("early-unlock model does not violate SameAsAlone: the model is vacuous")
+    chk.extra_cov["early_unlock_model_violates"] = r.violated
     # ---- (ii) attack schedules
     attacks = []
     for g in GRAPHS:
